@@ -199,6 +199,7 @@ type mchan struct {
 	chid     datatransfer.ChannelID
 	other    peer.ID
 	voucher  datatransfer.TypedVoucher
+	extra    []datatransfer.TypedVoucher // further vouchers sent after the opening one
 	base     cid.Cid
 	sel      datamodel.Node
 	pubSeen  int
